@@ -217,11 +217,22 @@ func (p *Parser) print(r rune) {
 		w        int
 	)
 	for p.r.Buffered() > 0 {
-		nextRune, _, _ := p.r.ReadRune()
+		nextRune, size, _ := p.r.ReadRune()
+		raw := nextRune == unicode.ReplacementChar && size == 1
+		if raw {
+			// invalid UTF-8: the byte as is, as readRune delivers it
+			p.r.UnreadRune()
+			b, _ := p.r.ReadByte()
+			nextRune = rune(b)
+		}
 		bldr.WriteRune(nextRune)
 		grapheme, rest, w, _ = uniseg.FirstGraphemeClusterInString(bldr.String(), -1)
 		if rest != "" {
-			p.r.UnreadRune()
+			if raw {
+				p.r.UnreadByte()
+			} else {
+				p.r.UnreadRune()
+			}
 			break
 		}
 	}
